@@ -1992,7 +1992,38 @@ func ruleAggrKind(p *Prog, r *Result) {
 // ---------------- BETWEENORDER ----------------
 
 func init() {
-	register("BETWEENORDER", "BETWEEN means lower <= x <= upper with the boundaries as written: every evaluator the Between operator is dispatched to compares its two boundary values with each other and fails on one outcome of that comparison (it does not swap them) - the scan-range optimizer turns `key between a and b` into the region [a, b] as written, which is empty when a > b, so an evaluator accepting reversed boundaries would select rows the access path never reads", ruleBetweenOrder)
+	register("BETWEENORDER", "BETWEEN means lower <= x <= upper with the boundaries as written: every evaluator the Between operator is dispatched to compares its two boundary values with each other and, when lower > upper, answers false for that pair - no error, no swap. The scan-range optimizer turns `key between a and b` into the region [a, b] as written, which is empty when a > b: an evaluator accepting reversed boundaries would select rows the access path never reads, and one raising an error disagrees with the planner (which reads nothing and reports nothing) as soon as the clause is or-ed with something else", ruleBetweenOrder)
+}
+
+// answersFalse: the block ends the evaluation of one pair with the answer false and no error - it returns
+// (false, nil), or (vector code) stores the constant false into the result column.
+func answersFalse(b *ssa.BasicBlock) bool {
+	if ret := retOf(b); ret != nil && len(ret.Results) == 2 {
+		v := retVal(ret, 0)
+		if mi, ok := v.(*ssa.MakeInterface); ok {
+			v = mi.X
+		}
+		if bv, isB := constBool(v); isB && !bv && isNilConst(retVal(ret, 1)) {
+			return true
+		}
+	}
+	for _, in := range b.Instrs {
+		st, ok := in.(*ssa.Store)
+		if !ok {
+			continue
+		}
+		if _, isIA := st.Addr.(*ssa.IndexAddr); !isIA {
+			continue
+		}
+		v := st.Val
+		if mi, ok := v.(*ssa.MakeInterface); ok {
+			v = mi.X
+		}
+		if bv, isB := constBool(v); isB && !bv {
+			return true
+		}
+	}
+	return false
 }
 
 func ruleBetweenOrder(p *Prog, r *Result) {
@@ -2086,12 +2117,9 @@ func ruleBetweenOrder(p *Prog, r *Result) {
 				if !edgeDominates(b, si, sc) {
 					continue
 				}
-				if ret := retOf(sc); ret != nil && len(ret.Results) > 0 {
-					ev := retVal(ret, len(ret.Results)-1)
-					if _, isC := ev.(*ssa.Call); isC && !isNilConst(ev) {
-						for _, t := range tested {
-							failing[t] = true
-						}
+				if answersFalse(sc) {
+					for _, t := range tested {
+						failing[t] = true
 					}
 				}
 			}
@@ -2161,28 +2189,26 @@ func ruleBetweenOrder(p *Prog, r *Result) {
 					if !edgeDominates(b, si, sc) {
 						continue
 					}
-					if ret := retOf(sc); ret != nil && len(ret.Results) > 0 {
-						if _, isC := retVal(ret, len(ret.Results)-1).(*ssa.Call); isC {
-							ea, _ := edgeAtom(b, si)
-							bv, _ := constBool(ea.Y)
-							if (ea.Op == token.EQL) == bv {
-								failsWhen = "true"
-							} else {
-								failsWhen = "false"
-							}
+					if answersFalse(sc) {
+						ea, _ := edgeAtom(b, si)
+						bv, _ := constBool(ea.Y)
+						if (ea.Op == token.EQL) == bv {
+							failsWhen = "true"
+						} else {
+							failsWhen = "false"
 						}
 					}
 				}
 			}
 			okStrict := (op == "<=" && failsWhen == "false") || (op == ">" && failsWhen == "true")
 			if !okStrict {
-				strictBad = fmt.Sprintf("the evaluator fails when (lower %s upper) is %s: equal boundaries are refused", op, failsWhen)
+				strictBad = fmt.Sprintf("the evaluator answers false when (lower %s upper) is %s: equal boundaries give no match", op, failsWhen)
 			}
 		}
 		if found > 0 {
-			r.add(strictBad == "", p.FName(fn)+"|equal-allowed", p.Pos(fn.Pos()), firstNonEmpty(strictBad, "the evaluator fails exactly when lower > upper"))
+			r.add(strictBad == "", p.FName(fn)+"|equal-allowed", p.Pos(fn.Pos()), firstNonEmpty(strictBad, "the evaluator answers false without looking at the value exactly when lower > upper"))
 		}
-		r.add(found > 0 && fails >= found, p.FName(fn), p.Pos(fn.Pos()), fmt.Sprintf("the two boundaries are compared with each other (%d comparison(s)) and one outcome is an error (%d)", found, fails))
+		r.add(found > 0 && fails >= found, p.FName(fn), p.Pos(fn.Pos()), fmt.Sprintf("the two boundaries are compared with each other (%d comparison(s)) and on one outcome the answer is false, without an error and without a swap (%d)", found, fails))
 	}
 	r.floor("evaluators of BETWEEN", n, 2)
 }
